@@ -3,7 +3,7 @@
    real bytes when short, otherwise a tag (length + digest) - the model treats them opaquely.
    The codec is the table of what the reference decoders (stdlib gzip/flate, brotli, zstd)
    made of the served bytes, supplied by the harness for exactly the calls the model makes. *)
-From ReqV Require Export Lib.Bytes Model.Decode Model.DecodeSession.
+From ReqV Require Export Lib.Bytes Lib.PackedBytes Model.Decode Model.DecodeSession.
 
 (* How a sequence case writes a byte string: literally, or - the payloads of sequences are produced
    by a fixed generator that exists on both sides (harness/c14/seq.go genByte) - as a slice of a
